@@ -1748,6 +1748,9 @@ def _i_sorted(args, kw):
 
 @intrinsic(numpy.searchsorted)
 def _i_searchsorted(args, kw):
+    if any(hasattr(a, "_symarray") for a in list(args[:2]) + [kw.get("sorter")]):
+        from gsv import colsym
+        return colsym.m_searchsorted_arr(*args, **kw)
     return searchsorted(*args, **kw)
 
 
